@@ -1,0 +1,12 @@
+//go:build verif
+
+package process
+
+// Contracts for the goverif VC generator (/verif). Comment-only file: it adds no code.
+
+// SystemProcess.ExitNum returns the exit code of the system process it wraps ($sysExit names that
+// value; trusted: a locked getter delegating to the wrapped process).
+//@ spec $sysExit(sp int) int
+//@ func (*SystemProcess).ExitNum [C21] trusted
+//@   pure
+//@   ensures result == $sysExit(sp)
